@@ -105,6 +105,13 @@ CHECKS["C10"] = {
     "note": "Default delimiters and the template_comments environment only (custom delimiters are C11). Hyphens on inner raw/comment/doc delimiters are expected to have no effect.",
 }
 
+CHECKS["C21"] = {
+    "technique": "exhaustive token-sequence testing of the tag audit vs strict parser (validity predicates)",
+    "text": "Every sequence of up to 3 (quick: half of length 3) / 4 (thorough: 5.3M sources) tag tokens over a 40-name alphabet of registered block, inner, end, inline and unknown tags, in the default and the extra environment, plus structure-biased longer sequences and generated valid templates: analyze_tags_from_string must return; a source that parses in strict mode must have no unclosed/unexpected/unknown report; unregistered names must be reported unknown and block tags without end tag unclosed.",
+    "design_ref": "DESIGN.md §4 C21",
+    "note": "Three known findings (stray break/continue; branches after else swallowed by the lax if parser) are suppressed by bucket + case predicate; the end tag of an unknown block counts as reported when its start tag is reported.",
+}
+
 NOT_APPLICABLE = [
     {"property_id": p, "reason": "check not built yet in this round (work in progress; see DESIGN.md §4 for the planned oracle)"}
     for p in ALL
